@@ -191,10 +191,15 @@ pub fn monitor(out: &RunOut) -> MonOut {
                 }
                 // R3: same session, fresh request id
                 let ucs: Vec<&Exchange> = xs.iter().filter(|x| x.kind == ReqKind::UpdateCheck).collect();
-                if let Some(u) = ucs.first() {
+                // (every attempt of the update check, in particular the one that was answered)
+                for (k, u) in ucs.iter().enumerate() {
                     if g.session_id() != u.session_id() {
-                        m.viol(p, "R3", &site, format!("the {} report does not carry the check's session id", e.what));
+                        m.viol(p, "R3", &site, format!("the {} report does not carry the session id of update-check attempt {} of {}", e.what, k + 1, ucs.len()));
+                        break;
                     }
+                }
+                if ucs.len() > 1 {
+                    m.count("R3.reports_after_a_retried_check");
                 }
                 // R4: delivery outcome accounting
                 let delivered_ok = matches!(g.delivered(), Some(r) if seg::accepted_by_cup(c.cup, r) && seg::is_2xx(r.status));
